@@ -31,14 +31,14 @@ theorem mem_foldr_insertSorted {x : Nat} : ∀ {l : List Nat}, x ∈ l.foldr ins
   | [] => by simp
   | y :: ys => by simp [List.foldr_cons, mem_insertSorted, mem_foldr_insertSorted (l := ys)]
 
-theorem adapt_servers {cf : CF} {c : Config} (h : adapt cf = some c) :
-    c.servers = (cfPorts cf).map (cfServer cf) ∧ httpPort c = cf.httpPort ∧ c.policies = [] := by
-  unfold adapt at h
+theorem adapt_servers {cf : CF} {pols : List Policy} {c : Config} (h : adaptWith cf pols = some c) :
+    c.servers = (cfPorts cf).map (cfServer cf) ∧ httpPort c = cf.httpPort ∧ c.policies = pols := by
+  unfold adaptWith at h
   split at h
   · cases h
   · cases h; exact ⟨rfl, rfl, rfl⟩
 
-theorem cfServer_mem {cf : CF} {c : Config} (h : adapt cf = some c) {t : Site} (ht : t ∈ cf.sites) :
+theorem cfServer_mem {cf : CF} {pols : List Policy} {c : Config} (h : adaptWith cf pols = some c) {t : Site} (ht : t ∈ cf.sites) :
     cfServer cf (sitePort cf t) ∈ c.servers := by
   rw [(adapt_servers h).1]
   apply List.mem_map.mpr
@@ -90,9 +90,11 @@ theorem mem_cfSkip {cf : CF} {p : Nat} {d : Name} :
     · rintro ⟨_, t, ht, hp, hs, rfl, hn⟩
       exact ⟨t, ⟨⟨ht, hp⟩, hs, hn⟩, rfl⟩
 
-/-- **`auto_https off` switches certificate management off altogether**: whatever the sites,
+/-- **`auto_https off` switches certificate management off altogether**: whatever the sites and
+    whatever automation policies the adapter emits for them (`pols`),
     no name is handed to certificate management, for every iteration order -/
-theorem cf_off_manages_nothing (cf : CF) (c : Config) (P : Params) (π : Orders) (h : adapt cf = some c)
+theorem cf_off_manages_nothing (cf : CF) (pols : List Policy) (c : Config) (P : Params) (π : Orders)
+    (h : adaptWith cf pols = some c)
     (hoff : cf.off = true) (d : Name) : d ∉ certsOf c P π := by
   intro hd
   have hq := certs_only_qualifying' hd
@@ -102,7 +104,7 @@ theorem cf_off_manages_nothing (cf : CF) (c : Config) (P : Params) (π : Orders)
   obtain ⟨p, _, rfl⟩ := List.mem_map.mp hs
   simp [active, cfServer, hoff] at ha
 
-example : adapt ⟨0, 0, true, false, false, false, [⟨0, 1, 0⟩]⟩ ≠ none := by decide
+example : adapt ⟨0, 0, true, false, false, false, [⟨0, 1, 0, false⟩]⟩ ≠ none := by decide
 
 /-- **a named site qualifies, end to end from the Caddyfile**: a site address with a host, not
     written with `http://`, on a port other than the HTTP port, with `auto_https` neither `off`
@@ -110,7 +112,8 @@ example : adapt ⟨0, 0, true, false, false, false, [⟨0, 1, 0⟩]⟩ ≠ none 
     its name qualify (so `coverage` applies: it is managed and a policy applies to it) —
     provided the name is a certifiable subject without a loaded certificate (or
     `ignore_loaded_certs` is set) -/
-theorem cf_named_site_qualifies (cf : CF) (c : Config) (P : Params) (h : adapt cf = some c)
+theorem cf_named_site_qualifies (cf : CF) (pols : List Policy) (c : Config) (P : Params)
+    (h : adaptWith cf pols = some c)
     {t : Site} (ht : t ∈ cf.sites) (hn : t.name ≠ 0) (hport : sitePort cf t ≠ cf.httpPort)
     (hoff : cf.off = false) (hdc : cf.disableCerts = false)
     (htwin : ∀ u ∈ cf.sites, sitePort cf u = sitePort cf t → u.scheme = 1 → u.name ≠ t.name)
@@ -136,7 +139,7 @@ theorem cf_named_site_qualifies (cf : CF) (c : Config) (P : Params) (h : adapt c
   · simp only [certOk, cfServer, hq, Bool.true_and]
     rcases hl with hl | hl <;> simp [hl]
 
-example : qualifies ⟨0, 0, [cfServer ⟨0, 0, false, false, false, false, [⟨0, 1, 0⟩, ⟨1, 2, 0⟩]⟩ 443], [], none⟩
+example : qualifies ⟨0, 0, [cfServer ⟨0, 0, false, false, false, false, [⟨0, 1, 0, false⟩, ⟨1, 2, 0, false⟩]⟩ 443], [], none⟩
     { q := fun d => d == 1, pub := fun d => d == 1, ip := fun _ => false, internal := fun _ => false,
       loaded := fun _ => false, ts := fun _ => false, mw := fun a b => a == b, hm := fun a b => a == b } 1 = true := by
   decide
@@ -144,7 +147,8 @@ example : qualifies ⟨0, 0, [cfServer ⟨0, 0, false, false, false, false, [⟨
 /-- **names written only with `http://` are never managed** (issue 2998): if every site address
     naming `d` carries the `http://` scheme, `d` does not qualify — its server listens only on
     the HTTP port, or `d` is put on the server's skip list -/
-theorem cf_http_only_name_not_managed (cf : CF) (c : Config) (P : Params) (π : Orders) (h : adapt cf = some c)
+theorem cf_http_only_name_not_managed (cf : CF) (pols : List Policy) (c : Config) (P : Params) (π : Orders)
+    (h : adaptWith cf pols = some c)
     (d : Name) (hall : ∀ t ∈ cf.sites, t.name = d → t.scheme = 1) : d ∉ certsOf c P π := by
   intro hd
   have hq := certs_only_qualifying' hd
@@ -164,6 +168,6 @@ theorem cf_http_only_name_not_managed (cf : CF) (c : Config) (P : Params) (π : 
     have : (cfServer cf p).skip.contains d = true := by simpa using this
     rw [this] at hskip; cases hskip
 
-example : adapt ⟨0, 0, false, false, false, false, [⟨1, 1, 8080⟩, ⟨0, 2, 8080⟩]⟩ ≠ none := by decide
+example : adapt ⟨0, 0, false, false, false, false, [⟨1, 1, 8080, false⟩, ⟨0, 2, 8080, true⟩]⟩ ≠ none := by decide
 
 end CaddyModel.C11
